@@ -19,12 +19,16 @@ type Events struct {
 	NegOverflow int // -INT_MIN, abs(INT_MIN)
 	F2IRange    int // float -> int conversion of an out-of-range value
 	F2INaN      int
+	F2UNegFrac  int // float in (-1, 0) converted to u32: 0 in WGSL; GLSL: "undefined to convert a negative floating-point value to an uint"
 	ShiftWide   int // shift amount >= 32 at run time
 	NotRepresentable int // abstract value converted to a concrete type that cannot hold it (shader-creation error)
 	AbsOverflow int // abstract-int arithmetic overflowed 64 bits
+	AbsWide     int // an abstract-int intermediate value lies outside the i32 range
+	Cancel      int // float addition / subtraction with catastrophic cancellation (result depends on evaluation precision)
 	ClampInv    int // integer clamp with low > high (WGSL: min(max(e,low),high))
 	BitsClamp   int // extractBits / insertBits with offset + count > 32 (WGSL clamps)
 	RoundTie    int // round() of an exact .5 tie (WGSL: ties to even)
+	RemNeg      int // i32 % with a negative operand (WGSL: truncated remainder; GLSL: undefined)
 	IntOverflow int // i32/u32 + - * << whose mathematical result does not fit (matters for const-expressions only)
 	UndefBuiltin int // builtin called outside the domain where WGSL defines the result
 	Imprecise   int // float operation whose WGSL accuracy bound is so loose here that any comparison would be unsound
@@ -596,6 +600,11 @@ func ConstOK(e wgen.Expr) (ok bool) {
 		ev.F2IRange == 0 && ev.F2INaN == 0 && ev.ShiftWide == 0 && ev.UndefBuiltin == 0 && ev.Imprecise == 0 && ev.BitsClamp == 0 && ev.ClampInv == 0 && ev.IntOverflow == 0 && ev.OOB == 0 && ev.FuzzyUse == 0
 }
 
+// AbsWideUnjudged makes ConstEval skip expressions with an abstract-int
+// intermediate outside the i32 range (set by checks while the corresponding
+// finding is open).
+var AbsWideUnjudged bool
+
 // ConstClass classifies a constant expression.
 type ConstClass int
 
@@ -638,12 +647,14 @@ func ConstEval(e wgen.Expr, dst *wgen.Type, decls []*wgen.Var) (v Value, class C
 	}
 	ev := m.ev
 	switch {
-	case ev.DivZero > 0:
-		return v, ConstMustReject, "integer division by zero"
+	case ev.AbsWide > 0 && AbsWideUnjudged:
+		return v, ConstUnspecified, "abstract-int intermediate outside the i32 range (open finding)"
 	case ev.NotRepresentable > 0:
 		return v, ConstMustReject, "value not representable in its type"
+	case ev.DivZero > 0:
+		return v, ConstMustReject, "integer division by zero"
 	case ev.AbsOverflow > 0, ev.IntOverflow > 0, ev.DivOverflow > 0, ev.NegOverflow > 0, ev.ShiftWide > 0, ev.NonFinite > 0, ev.Subnormal > 0,
-		ev.F2IRange > 0, ev.F2INaN > 0, ev.UndefBuiltin > 0, ev.Imprecise > 0, ev.OOB > 0, ev.FuzzyUse > 0, ev.BitsClamp > 0, ev.ClampInv > 0:
+		ev.F2IRange > 0, ev.F2INaN > 0, ev.UndefBuiltin > 0, ev.Imprecise > 0, ev.Cancel > 0, ev.OOB > 0, ev.FuzzyUse > 0, ev.BitsClamp > 0, ev.ClampInv > 0:
 		return v, ConstUnspecified, "outside the judged domain"
 	}
 	return v, ConstValue, ""
